@@ -5,7 +5,7 @@ NOT_APPLICABLE = {
            "threads or multiprocessing symbolically, and a sequential stub would decide one schedule only (DESIGN §4 C13)",
 }
 ENGINES = [
-    {"name": "pysym", "path": "vf/pysym", "serves_properties": ["C17", "C07"],
+    {"name": "pysym", "path": "vf/pysym", "serves_properties": ["C17", "C07", "C06"],
      "kind_free_text": "bounded path-forking symbolic interpreter over the AST of the real py7zr sources (re-parsed "
                        "from /repo on every run), z3 bit-vectors / integers / ropes; solver verdict per path"},
 ]
@@ -13,7 +13,21 @@ NOTES = ("Exit codes: 0 all obligations HOLD within their bounds; 1 a replayed v
          "known_findings.json; 2 inconclusive / harness error (never reported as success). Every verdict is bounded; "
          "bounds, stubs and assumptions are in evidence/<id>.json.")
 B = "B: vf/pysym (AST symbolic interpreter + z3)"
+RD_NOTE = ("codec libraries replaced by a decoder contract stub (next r bytes of the folder's ideal stream, r<=max_length, "
+           "progress while output remains; <= unroll decoder calls per member, longer paths cut and counted); CRC of decoded data "
+           "= identity of the byte range; NUMBER token summary (lemma L0, C17); reference writer/reader pair in /verif is the "
+           "oracle; archive shapes (entry kinds, folder partition, layout options) are an enumerated bound, all sizes, CRCs, "
+           "timestamps, pack sizes symbolic")
 CHECKS = {
+    "C06": dict(engine=B, ref="DESIGN.md §4 C06",
+                technique="bounded symbolic execution of the real reader (_real_get_contents, Header/*Info._read, Worker.extract, "
+                          "_extract_single, decompress) from the AST on reference-written headers with symbolic values; z3 decides",
+                text="For every layout in the enumerated shape set (1-3 folders, solid/non-solid, directory/empty-file entries "
+                     "interleaved, folder-level or per-file or no CRCs, packed CRCs, PackPos>0, kDummy, EmptyFile vector, partially "
+                     "defined attribute/time vectors) and every value of the sizes/CRCs/timestamps, the real reader reports the "
+                     "names, kinds, sizes, digests, times, attributes and folder the format assigns, and extractall feeds every "
+                     "member exactly its byte range of its folder's decoded stream, read from where the packed stream lies.",
+                note=RD_NOTE),
     "C07": dict(engine=B, ref="DESIGN.md §4 C07",
                 technique="bounded symbolic execution of the real write path (writestr/write/close, Header.write, SignatureHeader) "
                           "from the AST with a codec-contract stub; output parsed by an independent reference reader interpreted "
